@@ -207,6 +207,12 @@ ADDED6 = {
 for _k, _v in ADDED6.items():
     CLAIMED[_k]['text'] += ' Round 5: ' + _v
 
+ADDED7 = {
+ 'C01': 'R14: writes that create_track / update() make only under a condition over snapshot fields store no field the condition ignores, unless the condition is proved always true (a list padded to a positive minimum by its conversion helper) or the field has an unconditional location.',
+}
+for _k, _v in ADDED7.items():
+    CLAIMED[_k]['text'] += ' Round 6: ' + _v
+
 NOT_APPLICABLE = {
  'C19': 'numerical result of integer/floating arithmetic over all inputs (ceiling division, quantisation, minimality, monotonicity): no structural clause beyond the division guard, which C15-U6 covers; a sound decision needs an arithmetic solver or proof (different family)',
  'C20': 'floating-point numerical behaviour of beat-grid extrapolation (bracketing, tempo preservation, idempotence up to rounding); only the iterator arithmetic is shape-visible and is covered by C15-U3',
